@@ -8,6 +8,7 @@ import LzmaVerif.Model.Xz
 import LzmaVerif.Model.LzipFile
 import LzmaVerif.Model.Split
 import LzmaVerif.Model.BcjStream
+import LzmaVerif.Model.Mem
 /-! Request handlers: each maps a parsed request to the canonical answer line. -/
 namespace Driver
 open LzmaVerif
@@ -155,6 +156,36 @@ def handleBcjStream (cmd : String) (a : Args) : String :=
       | _, _ => "bad-op"
   | _, _, _ => "bad-op"
 
+def handleMem (cmd : String) (a : Args) : String :=
+  match a.nat? "dict" with
+  | none => "bad-op"
+  | some dict =>
+    match cmd with
+    | "mem.enc" =>
+      (match a.nat? "lc", a.nat? "lp", a.nat? "normal", a.nat? "bt4" with
+       | some lc, some lp, some normal, some bt4 =>
+         let o : Mem.EncOpts := { dict, lc, lp, pb := 2, normal := normal == 1, bt4 := bt4 == 1, nice := (a.nat? "nice").getD 64 }
+         let allocs := if a.nat? "allocs" == some 1 then
+             " " ++ ",".intercalate (((Mem.encAllocs o true).filter (· ≥ 4096)).mergeSort.map toString) else ""
+         s!"ok {Mem.encEstimate o}{allocs}"
+       | _, _, _, _ => "bad-op")
+    | "mem.lzmadec" =>
+      (match a.nat? "lc", a.nat? "lp" with
+       | some lc, some lp => (match Mem.lzmaDecEstimate dict lc lp with | some e => s!"ok {e}" | none => "err")
+       | _, _ => "bad-op")
+    | "mem.lzma2dec" => s!"ok {Mem.lzma2DecEstimate dict}"
+    | _ => "bad-op"
+
+/-- `lzma.expected exp=<n> parts=<…>` -/
+def handleExpected (a : Args) : String :=
+  match a.nat? "exp", a.nats? "parts" with
+  | some exp, some parts =>
+    match Split.expectedRun exp parts 0 0 with
+    | .ok w => s!"ok {w}"
+    | .errWrite i => s!"errwrite {i}"
+    | .errFinish => "errfinish"
+  | _, _ => "bad-op"
+
 def showNats (l : List Nat) : String := if l.isEmpty then "-" else ",".intercalate (l.map toString)
 
 /-- `split.xz|split.lzip|split.mt lim=<n> parts=<n,n,…>` -/
@@ -172,7 +203,9 @@ def handleSplit (cmd : String) (a : Args) : String :=
 def handle (cmd : String) (a : Args) : String :=
   match cmd with
   | "split.xz" | "split.lzip" | "split.mt" => handleSplit cmd a
+  | "lzma.expected" => handleExpected a
   | "bcj.wstream" | "bcj.rstream" => handleBcjStream cmd a
+  | "mem.enc" | "mem.lzmadec" | "mem.lzma2dec" => handleMem cmd a
   | "xz.dec" | "lzip.dec" => handleContainer cmd a
   | "bcj.code" | "delta.enc" | "delta.dec" => handleFilter cmd a
   | "lzma2.dec" => handleLzma2Dec a
